@@ -805,8 +805,10 @@ orc_x86_insn_output_asm (OrcCompiler *p, OrcX86Insn *xinsn)
   }
 
   if (xinsn->prefix == ORC_X86_AVX_VEX128_PREFIX || xinsn->prefix == ORC_X86_AVX_VEX256_PREFIX) {
+    /* AT&T order: the register encoded in imm8[7:4] (the mask of vblendvpd)
+     * comes first, then r/m, then VEX.vvvv, then the destination */
     ORC_ASM_CODE(p,"  v%s %s%s%s%s%s\n", xinsn->opcode->name,
-        imm_str, src_op, src_2nd_op, src_3rd_op, dst_op);
+        imm_str, src_3rd_op, src_op, src_2nd_op, dst_op);
   } else {
     ORC_ASM_CODE(p,"  %s %s%s%s\n", xinsn->opcode->name,
         imm_str, src_op, dst_op);
